@@ -680,6 +680,55 @@ def check(ctx: Ctx) -> list[RuleResult]:
                 r6.fail(f"{f.short}:{why.split()[0]}", f.loc(n), f"`{norm(n)[:70]}` in {f.short}: {why}: distinct wire words decode to the same value, so a value on the wire grid does not survive the round trip")
         else:
             r6.ok({"decoder": f.short, "divisors": sorted(ks) + (["<parameter>"] if unknown_k else []), "quotient_carried_by": sorted(tainted)})
+    # the sign fold of a two's-complement decoder: the word K = 2**(n-1) is the most negative value, so the fold-down by 2**n happens
+    # for exactly the words >= K. A test that is off by one (`> K`) decodes the word K as +K/scale - outside the wire range
+    from .common import Unfoldable as _Unf6
+    from .common import fold_expr as _fold6
+
+    for f in [g for g in repo.functions_in(f"{H}.") if g.name.startswith("hex_to_") and g.parent is None]:
+        subs = []
+        for n in own_nodes(f.node):
+            m = None
+            if isinstance(n, ast.BinOp) and isinstance(n.op, ast.Sub):
+                m = _fold(f, n.right) if not isinstance(n.right, ast.Constant) else n.right.value
+            elif isinstance(n, ast.AugAssign) and isinstance(n.op, ast.Sub):
+                m = _fold(f, n.value) if not isinstance(n.value, ast.Constant) else n.value.value
+            if isinstance(m, int) and m >= 256 and (m & (m - 1)) == 0:
+                subs.append((n, m))
+        for n, m in subs:
+            K = m // 2
+            # the test that selects this subtraction: the enclosing conditional expression / if statement
+            p6 = getattr(n, "parent", None)
+            test = None
+            in_true = None
+            c6 = n
+            while p6 is not None and p6 is not f.node:
+                if isinstance(p6, ast.IfExp) and c6 is not p6.test:
+                    test, in_true = p6.test, c6 is p6.body
+                    break
+                if isinstance(p6, ast.If) and c6 is not p6.test:
+                    test, in_true = p6.test, c6 in p6.body
+                    break
+                c6, p6 = p6, getattr(p6, "parent", None)
+            if test is None:
+                continue
+            names6 = sorted({x.id for x in ast.walk(test) if isinstance(x, ast.Name)})
+            if len(names6) != 1:
+                continue
+            r6.instances += 1
+            r6.nontrivial += 1
+            try:
+                at_k = bool(_fold6(None, test, {names6[0]: K}, ctx.consts, f))
+                below = bool(_fold6(None, test, {names6[0]: K - 1}, ctx.consts, f))
+            except (_Unf6, TypeError):
+                r6.ok({"decoder": f.short, "sign_fold": "test not foldable (undecided)"})
+                continue
+            folds_at_k = at_k if in_true else not at_k
+            folds_below = below if in_true else not below
+            if folds_at_k and not folds_below:
+                r6.ok({"decoder": f.short, "sign_fold": f"words >= {K:#x} are folded down by {m:#x}"})
+            else:
+                r6.fail(f"{f.short}:sign-fold-boundary", f.loc(test), f"in {f.short} the fold-down by {m:#x} is selected by `{norm(test)[:40]}`: the word {K:#x} is {'not ' if not folds_at_k else ''}folded and {K - 1:#x} is {'' if folds_below else 'not '}folded - the boundary word decodes to a value on the wrong side of the range (e.g. 0x8000 as +327.68 instead of -327.68)")
     out.append(r6)
 
     # ---- R7 ---------------------------------------------------------------------------
